@@ -12,7 +12,7 @@ CFG = dict(
                'is validated numerically with tolerance 2^-16; l2 within 2^-18 relative on the square, l1 within 2^-40 relative. The DotProduct metric of the index is the negated cosine of '
                'the normalised vectors (as implemented and documented in transform_distance), not the raw inner product. Trusted: Coq kernel, harness printers, hooks verif_raw_search / verif_graph_nodes.',
     technique='Coq proof (wrapper model over an abstract graph search with a recorded contract; invariant from the C25 refinement) + proved-property checker is_valid_knn on real output + differential correspondence of the wrapper',
-    bin='c24', n_quick=400, n_thorough=8000,
+    bin='c24', n_quick=400, n_thorough=2000,
     corr_name='Model/Hnsw.v Section Search (wrapper) vs Index::search, and the ann contract vs hnsw_rs',
     rule='5 hand-written cases (Manhattan L1-nearest outside the 4k L2-nearest, pending tombstones, update, duplicates with k=0 / k>n / ef=1, empty and single) then random cases: '
          'dims 1-8, 0-60 vectors with integer components in -8..8 scaled by {1, 0.5, 2^-10, 1e-5} (near-zero norms), 1/6 duplicates, all four metrics, m in {4,8,16,32}, '
